@@ -61,4 +61,12 @@ theorem linearization_factor_py : py_linearization_factor = 1 / 8 := by decide +
 theorem clipping_defaults : py_clipping_DEFAULT_S_MIN = 1 ∧ py_clipping_DEFAULT_S_MAX = 0 := by
   decide +kernel
 
+/-! ### items extracted since `harness/extract_c16.diff` was applied -/
+theorem wiggle_same : py_helpers_wiggle_default = f90_helpers_WIGGLE := by decide +kernel
+theorem box_enum_same :
+    py_geometric_intersection_BoxIntersectionType_INTERSECTION = f90_curve_intersection_BoxIntersectionType_INTERSECTION ∧
+    py_geometric_intersection_BoxIntersectionType_TANGENT = f90_curve_intersection_BoxIntersectionType_TANGENT ∧
+    py_geometric_intersection_BoxIntersectionType_DISJOINT = f90_curve_intersection_BoxIntersectionType_DISJOINT := by decide
+theorem linearization_factor_f90 : f90_linearization_factor = 1 / 8 := by decide +kernel
+
 end BezierVerif.Tables.C16
